@@ -256,13 +256,25 @@ func buildCorsPair(r *core.Rand, router string) *corsPair {
 	bo.Dynamic = true
 	p.with, p.wsWith = rt.BuildWS(p.t, bo)
 	p.cors = p.cfg.build(p.with, p.tap)
+	// a plain handler registered BEFORE the first container filter exists: the filters that are there when a request
+	// arrives apply to it all the same
+	p.with.HandleWithFilter("/hwf-early/", http.HandlerFunc(hwfEarly))
 	p.with.Filter(presetACAO)
 	p.with.Filter(p.cors.Filter)
 	p.with.Filter(rt.SelFilter("after-cors"))
 	p.twin, p.wsTwin = rt.BuildWS(p.t, bo)
+	p.twin.HandleWithFilter("/hwf-early/", http.HandlerFunc(hwfEarly))
 	p.twin.Filter(rt.SelFilter("after-cors"))
 	p.plain, p.wsPlain = rt.BuildWS(p.t, bo)
 	return p
+}
+
+func hwfEarly(w http.ResponseWriter, r *http.Request) {
+	if o := rt.ObsOf(r); o != nil {
+		o.Invokes = append(o.Invokes, rt.Invoke{RID: 7777})
+	}
+	w.WriteHeader(200)
+	w.Write([]byte("early-handler"))
 }
 
 // presetACAO is an outer layer that already put an Access-Control-Allow-Origin on the response (on demand of the request).
@@ -288,9 +300,58 @@ func corsReq(method, path, origin string, acrm, acrh string) rt.Req {
 }
 
 // c08: CORS headers are granted only to allowed origins, echoing the origin.
+// twoCorsFilters: a container-level and a WebService-level CORS filter with configurations of their own see the same
+// request. Each decides for itself: Allow-Origin appears once per filter that allows the origin (verbatim), credentials once
+// per allowing filter that has cookies configured.
+func twoCorsFilters(ctx *core.Ctx, ci int, r *core.Rand, cfg1 *corsCfg) {
+	cfg2 := genCorsCfg(r)
+	c := restful.NewContainer()
+	f1 := cfg1.build(c, &predTap{calls: map[string]bool{}})
+	f2 := cfg2.build(c, &predTap{calls: map[string]bool{}})
+	c.Filter(f1.Filter)
+	ws := new(restful.WebService).Path("/two")
+	ws.Filter(f2.Filter)
+	ws.Route(ws.GET("/x").To(func(req *restful.Request, resp *restful.Response) { resp.Write([]byte("ok")) }))
+	c.Add(ws)
+	origins := append(originVariants(r, cfg1), originVariants(r, cfg2)...)
+	for _, origin := range origins {
+		req := corsReq("GET", "/two/x", origin, "", "")
+		out := rt.Run(c, rt.Dispatch, &req)
+		ctx.Eval(1)
+		ctx.Count("requests_through_two_cors_filters", 1)
+		a1, a2 := cfg1.policy(origin) == originAllowed, cfg2.policy(origin) == originAllowed
+		wantO, wantC := 0, 0
+		for _, x := range []struct {
+			allowed bool
+			cfg     *corsCfg
+		}{{a1, cfg1}, {a2, cfg2}} {
+			if x.allowed {
+				wantO++
+				if x.cfg.Cookies {
+					wantC++
+				}
+			}
+		}
+		h := out.Rec.Hdr()
+		gotO, gotC := h["Access-Control-Allow-Origin"], h["Access-Control-Allow-Credentials"]
+		doc := map[string]interface{}{"container_filter": cfg1, "service_filter": cfg2, "origin": origin, "allow_origin": gotO, "allow_credentials": gotC}
+		if len(gotO) > wantO || len(gotC) > wantC {
+			ctx.Violation(ci, "c08:two-filters:grant-beyond-configuration", fmt.Sprintf("Origin %q: container filter allows=%v (cookies %v), service filter allows=%v (cookies %v); the response carries Allow-Origin %q and Allow-Credentials %q", origin, a1, cfg1.Cookies, a2, cfg2.Cookies, gotO, gotC), doc)
+			return
+		}
+		for _, v := range gotO {
+			if v != origin {
+				ctx.Violation(ci, "c08:two-filters:echo", fmt.Sprintf("Allow-Origin %q for Origin %q", v, origin), doc)
+				return
+			}
+		}
+	}
+}
+
 func c08(ctx *core.Ctx) {
 	quietLogs()
-	ctx.Rule("generated CORS configurations (0-4 allowed domains +/- the .* wildcard, optional predicate over a fixed set, cookies, exposed headers, max-age, allowed methods/headers) on generated route tables, both routers; origins per allowed entry: exact, case variants, proper prefix/suffix, superstrings (entry.evil.com, evil-entry, x+entry), port/scheme variants, regex look-alikes (. -> x), trailing dot/slash/space/tab, host only, list 'a,a', null, empty, unicode, the request's own Host with either scheme; requests: route hit, other method, 404, OPTIONS with and without Access-Control-Request-Method. Oracle: reference policy; not allowed / no Origin => no Access-Control-* header and complete response + event log equal to a twin container without the filter; allowed => Allow-Origin at most once and byte-equal to Origin, credentials only if configured. Non-trivial = a request carrying an Origin; distinct by (policy verdict, origin mutation kind, request kind, list size, predicate).")
+	defer restful.EnableTracing(false)
+	ctx.Rule("generated CORS configurations (0-4 allowed domains +/- the .* wildcard, optional predicate over a fixed set, cookies, exposed headers, max-age, allowed methods/headers) on generated route tables, both routers; origins per allowed entry: exact, case variants, proper prefix/suffix, superstrings (entry.evil.com, evil-entry, x+entry), port/scheme variants, regex look-alikes (. -> x), trailing dot/slash/space/tab, host only, list 'a,a', null, empty, unicode, the request's own Host with either scheme; requests: route hit, other method, 404, OPTIONS with and without Access-Control-Request-Method, a plain handler registered with HandleWithFilter before the first filter; a quarter of the configurations with trace logging on; two CORS filters (container and WebService level) with configurations of their own on one request. Oracle: reference policy; not allowed / no Origin => no Access-Control-* header and complete response + event log equal to a twin container without the filter; allowed => Allow-Origin at most once and byte-equal to Origin, credentials only if configured. Non-trivial = a request carrying an Origin; distinct by (policy verdict, origin mutation kind, request kind, list size, predicate).")
 	ctx.Assume("predicate results are known from the configuration (fixed case-insensitive set) and cross-checked against a tap on the predicate")
 	configs := ctx.N(400, 80000)
 	for ci := 0; ci < configs; ci++ {
@@ -301,6 +362,10 @@ func c08(ctx *core.Ctx) {
 		router := routerOf(ci)
 		p := buildCorsPair(r, router)
 		ctx.Case(ci, core.JSON(p.cfg)+" table="+core.JSON(p.t))
+		restful.EnableTracing(ci%8 == 3 || ci%8 == 6) // a quarter of the configurations with trace logging on
+		if ci%5 == 1 || ci%5 == 2 {
+			twoCorsFilters(ctx, ci, r, p.cfg)
+		}
 		origins := originVariants(r, p.cfg)
 		// probe paths: a hit, a 404
 		hit := rt.GenReq(r, p.t, "common")
@@ -337,16 +402,28 @@ func c08(ctx *core.Ctx) {
 					req  rt.Req
 				}{"other-method", corsReq("DELETE", hit.Path, origin, "", "")})
 			}
+			if oi%4 == 1 {
+				kinds = append(kinds, struct {
+					kind string
+					req  rt.Req
+				}{"hwf-early", corsReq("GET", "/hwf-early/x", origin, "", "")})
+			}
 			for _, kr := range kinds {
 				req := kr.req
 				req.HasCT, req.CT, req.HasAcc, req.Accept, req.BodyLen = hit.HasCT, hit.CT, hit.HasAcc, hit.Accept, 0
 				if req.Method == hit.Method {
 					req.BodyLen = hit.BodyLen
 				}
-				pairs = append(pairs, c08Pair{origin, req})
+				entry := rt.Dispatch
+				if kr.kind == "hwf-early" {
+					entry = rt.ServeHTTP // plain handlers live on the ServeMux
+					req.HasCT, req.HasAcc, req.BodyLen = false, false, 0
+				} else {
+					pairs = append(pairs, c08Pair{origin, req})
+				}
 				p.tap.reset()
-				out := rt.Run(p.with, rt.Dispatch, &req)
-				tw := rt.Run(p.twin, rt.Dispatch, &req)
+				out := rt.Run(p.with, entry, &req)
+				tw := rt.Run(p.twin, entry, &req)
 				ctx.Eval(2)
 				verdict := p.cfg.policy(origin)
 				ac := acHeaders(out.Rec.Hdr())
@@ -518,7 +595,7 @@ func judgePreflight(cfg *corsCfg, allowedMethods []string, acrm, acrh string, ou
 // c09: preflight answered by the filter alone; grants only what is allowed.
 func c09(ctx *core.Ctx) {
 	quietLogs()
-	ctx.Rule("generated CORS configurations x route tables (C17's fragment), both routers. Preflights: requested method from {GET,POST,PUT,DELETE,PATCH,HEAD, lower-case, unknown}, requested header lists (0-4 entries, any case, SP around commas, one foreign header at any position). Oracle: no later filter/handler event; grant => method within allowed methods (configured, or probed on a filter-less twin when unconfigured) and every header allowed; listed method + allowed headers => grant; refusal => zero Access-Control-* headers. Actual requests from allowed origins: chain continues like the twin and Allow-Origin/Credentials/Expose-Headers/Max-Age appear exactly once when configured. History: 30 preflights alternating over URLs with different method sets on ONE filter value, sequentially and from 8 goroutines (race detector on). Non-trivial = a judged preflight or actual request; distinct by (grant/refusal reason, configured vs computed methods, header list shape, history mode).")
+	ctx.Rule("generated CORS configurations x route tables (C17's fragment), both routers. Preflights: requested method from {GET,POST,PUT,DELETE,PATCH,HEAD, lower-case, unknown}, requested header lists (0-4 entries, any case, SP around commas, one foreign header at any position). Oracle: no later filter/handler event; grant => method within allowed methods (configured, or probed on a filter-less twin when unconfigured) and every header allowed; listed method + allowed headers => grant; refusal => zero Access-Control-* headers. A HandleWithFilter handler registered before the first filter: its preflight is answered by the filter alone, its actual request gets the grant once. Actual requests from allowed origins: chain continues like the twin and Allow-Origin/Credentials/Expose-Headers/Max-Age appear exactly once when configured. History: 30 preflights alternating over URLs with different method sets on ONE filter value, sequentially and from 8 goroutines (race detector on). Non-trivial = a judged preflight or actual request; distinct by (grant/refusal reason, configured vs computed methods, header list shape, history mode).")
 	configs := ctx.N(300, 30000)
 	reqHeaders := []string{"Content-Type", "content-type", "ACCEPT", "X-Custom", "Authorization", "X-Evil", "x-custom", "Accept", "Language", "Content", "x-authorization-hint", "Hint", "accept-language"}
 	for ci := 0; ci < configs; ci++ {
@@ -659,6 +736,25 @@ func c09(ctx *core.Ctx) {
 				}
 			}
 		}
+		// the plain handler registered with HandleWithFilter before the first container filter existed (ServeMux entry)
+		{
+			pre := corsReq("OPTIONS", "/hwf-early/x", origin, "GET", "")
+			out := rt.Run(p.with, rt.ServeHTTP, &pre)
+			ctx.Eval(1)
+			if len(out.Obs.Invokes) > 0 || len(out.Obs.Sels) > 0 {
+				ctx.Violation(ci, "c09:chain-continued:handle-with-filter", "a preflight for the pattern of a HandleWithFilter handler ran the handler or a later filter",
+					map[string]interface{}{"config": p.cfg, "request": pre, "router": router})
+			}
+			act := corsReq("GET", "/hwf-early/x", origin, "", "")
+			out = rt.Run(p.with, rt.ServeHTTP, &act)
+			ctx.Eval(1)
+			ac := acHeaders(out.Rec.Hdr())
+			if n := len(ac["Access-Control-Allow-Origin"]); n != 1 || len(out.Obs.Invokes) != 1 {
+				ctx.Violation(ci, "c09:actual-headers:handle-with-filter", fmt.Sprintf("GET on the pattern of a HandleWithFilter handler from an allowed origin: Allow-Origin appears %d times, the handler ran %d times (status %d body %.40q)", n, len(out.Obs.Invokes), out.Status, out.Rec.Body.String()),
+					map[string]interface{}{"config": p.cfg, "request": act, "router": router, "access_control_headers": ac})
+			}
+			ctx.Count("early_handle_with_filter_probes", 2)
+		}
 		// history: ONE filter value, preflights alternating over URLs with different routable sets
 		if len(p.cfg.Methods) == 0 && len(urls) >= 2 {
 			type hp struct {
@@ -725,6 +821,7 @@ func rebuildCorsPair(p *corsPair, router string) *corsPair {
 	bo.Dynamic = true
 	p.with, p.wsWith = rt.BuildWS(p.t, bo)
 	p.cors = p.cfg.build(p.with, p.tap)
+	p.with.HandleWithFilter("/hwf-early/", http.HandlerFunc(hwfEarly))
 	p.with.Filter(p.cors.Filter)
 	p.with.Filter(rt.SelFilter("after-cors"))
 	return p
@@ -741,6 +838,7 @@ func onDefaultContainer(p *corsPair, router string) *corsPair {
 		restful.DefaultContainer.Router(restful.RouterJSR311{})
 	}
 	p.cors = p.cfg.build(nil, p.tap)
+	restful.DefaultContainer.HandleWithFilter("/hwf-early/", http.HandlerFunc(hwfEarly))
 	restful.Filter(p.cors.Filter)
 	restful.Filter(rt.SelFilter("after-cors"))
 	p.with, p.wsWith = rt.BuildWS(p.t, bo)
